@@ -1,6 +1,7 @@
 package main
 
 import (
+	"errors"
 	"fmt"
 	"io"
 	"os"
@@ -427,6 +428,79 @@ func c11Gen(r *Rng) (*c11World, string) {
 
 // c11LazySequences: one lazy include node executed with a sequence of names (existing, missing, repeated),
 // on one compiled template executed several times.
+// c11BrokenReader: the first loader has the name but its reader fails while being read; a later loader holds a copy
+// under the same name. The first loader that HAS the name wins: the outcome is the read error, never the later copy.
+type c11FailingReader struct {
+	data string
+	off  int
+	at   int
+}
+
+func (f *c11FailingReader) Read(p []byte) (int, error) {
+	if f.off >= f.at {
+		return 0, errors.New("c11: read error half way through the file")
+	}
+	n := copy(p, f.data[f.off:f.at])
+	f.off += n
+	return n, nil
+}
+
+type c11ReadFailLoader struct {
+	vLoader
+	failing map[string]bool
+}
+
+func (l *c11ReadFailLoader) Get(p string) (io.Reader, error) {
+	rd, err := l.vLoader.Get(p)
+	if err == nil && l.failing[p] {
+		return &c11FailingReader{data: l.files[p], at: len(l.files[p]) / 2}, nil
+	}
+	return rd, err
+}
+
+func c11BrokenReader(c *C) {
+	r := c.R
+	first := &c11ReadFailLoader{vLoader: vLoader{id: 0, files: map[string]string{"/part.tpl": "FIRST-LOADER-COPY of part {{ 1 }} with a longer text", "/lib.tpl": "{% macro m() export %}FIRST-LIB{% endmacro %} and more text", "/base.tpl": "FIRST-BASE{% block b %}{% endblock %} and more text"}}, failing: map[string]bool{}}
+	second := &vLoader{id: 1, files: map[string]string{"/part.tpl": "SHADOWED-COPY part", "/lib.tpl": "{% macro m() export %}SHADOWED-COPY lib{% endmacro %}", "/base.tpl": "SHADOWED-COPY base{% block b %}{% endblock %}"}}
+	routes := []struct{ name, main, target string }{
+		{"static include", `<{% include "/part.tpl" %}>`, "/part.tpl"}, {"include if_exists", `<{% include "/part.tpl" if_exists %}>`, "/part.tpl"}, {"computed-name include", `<{% include pn %}>`, "/part.tpl"},
+		{"computed-name include if_exists", `<{% include pn if_exists %}>`, "/part.tpl"}, {"ssi", `<{% ssi "/part.tpl" %}>`, "/part.tpl"}, {"ssi parsed", `<{% ssi "/part.tpl" parsed %}>`, "/part.tpl"},
+		{"import", `{% import "/lib.tpl" m %}<{{ m() }}>`, "/lib.tpl"}, {"extends", `{% extends "/base.tpl" %}{% block b %}x{% endblock %}`, "/base.tpl"}, {"FromFile", ``, "/part.tpl"},
+	}
+	rt := routes[r.Intn(len(routes))]
+	first.failing[rt.target] = true
+	first.files["/main.tpl"] = rt.main
+	entry := "/main.tpl"
+	if rt.name == "FromFile" {
+		entry = "/part.tpl"
+	}
+	set := pongo2.NewSet("c11-broken-reader", first, second)
+	var out string
+	tpl, err := set.FromFile(entry)
+	if err == nil {
+		out, err = tpl.Execute(pongo2.Context{"pn": "/part.tpl"})
+	}
+	c.Eval(1)
+	d := D{"route": rt.name, "main": rt.main, "loader0": "has " + rt.target + " but its reader fails half way", "loader1": "holds a SHADOWED-COPY of " + rt.target, "output": q(out), "error": errStr(err), "loader1_get_calls": second.gets}
+	if strings.Contains(out, "SHADOWED-COPY") || strings.Contains(errStr(err), "SHADOWED-COPY") {
+		c.Fail("later-loader-won", d)
+		return
+	}
+	if err == nil && !(strings.Contains(rt.name, "if_exists") && out == "<>") {
+		// (with if_exists a file that cannot be read may count as absent: the property does not say; it renders nothing then)
+		c.Fail("read-error-lost", d)
+		return
+	}
+	for _, g := range second.gets {
+		if g == rt.target {
+			c.Fail("later-loader-won", d)
+			return
+		}
+	}
+	c.Cover("broken_reader_" + strings.ReplaceAll(rt.name, " ", "_"))
+	c.Nontrivial("brokenreader:" + rt.name)
+}
+
 func c11LazySequences(c *C) {
 	r := c.R
 	files := map[string]string{"/dir/a.tpl": "[A {{ n }}]", "/dir/b.tpl": "[B]", "/other/a.tpl": "[OTHER-A]", "/dir/main.tpl": "", "/a.tpl": "[ROOT-A]"}
@@ -500,6 +574,10 @@ func c11Run(c *C) {
 	r := c.R
 	if c.Idx%6 == 5 {
 		c11LazySequences(c)
+		return
+	}
+	if c.Idx%24 == 3 {
+		c11BrokenReader(c)
 		return
 	}
 	if c11Root == "" {
